@@ -1,7 +1,7 @@
 (* Property C13: the library functions that carry Lua names agree with Lua 5.4.
    Only the property theorems, each closed by [exact] of a lemma and followed by Print Assumptions.
    [lua_*] = reference (lstrlib.c / lutf8lib.c / lmathlib.c / lvm.c), [nl_*] = Nelua's port. *)
-From C13 Require Import Model ModelDrv ModelPack ModelUtf8 ModelPat ModelPackFmt ModelFmt ModelPackDrv ProofsIdx ProofsOrd ProofsDrv ProofsPack ProofsUtf8 ProofsPat ProofsPatFuel ProofsPackFmt ProofsFmt ProofsPackDrv.
+From C13 Require Import Model ModelDrv ModelPack ModelUtf8 ModelPat ModelPatG ModelPackFmt ModelFmt ModelPackDrv ProofsIdx ProofsOrd ProofsDrv ProofsPack ProofsUtf8 ProofsPat ProofsPatFuel ProofsPatReads ProofsPackFmt ProofsFmt ProofsFmtDef ProofsFuel ProofsPackDrv.
 Local Open Scope Z_scope.
 
 (* ---- (a) index normalisation ---- *)
@@ -463,3 +463,62 @@ Theorem C13_find_plain_decision_eq_lua : forall pat plain,
   nl_use_plain pat plain true = lua_use_plain pat plain true /\ nl_use_plain pat false false = lua_use_plain pat plain false.
 Proof. exact use_plain_eq_lua. Qed.
 Print Assumptions C13_find_plain_decision_eq_lua.
+
+(* string.format never reaches undefined behaviour: on every conversion specification that scanformat + checkformat
+   accept and every integer or string argument the C function it calls is defined - no flag, precision or length
+   modifier that ISO C99 7.21.6.1 leaves undefined for the conversion ([c99_snprintf] is never None), for every format
+   string and argument list.  Together with C13_format_val_is_lua: string.format neither fabricates nor misbehaves. *)
+Theorem C13_format_never_unsafe : forall cfloat fmt args, nl_format cfloat fmt args <> Unsafe.
+Proof. exact format_never_unsafe. Qed.
+Print Assumptions C13_format_never_unsafe.
+
+(* ---- the loop bounds of the drivers are never what ends them (same device as C13_match_loop_bounds_adequate): each
+   bounded loop, with the bound its caller gives it, returns what it returns under ANY larger bound - so "no match",
+   "end of iteration" or an error is never returned because the bound ran out ---- *)
+Theorem C13_search_bounds_adequate : forall (m : matcher) (s : bytes),
+  (forall anchor init n, 0 <= init -> (length s < n)%nat ->
+     lua_do_search s m anchor init = lua_search n m anchor (slen s) init) /\
+  (forall anchor pos n, 0 <= pos -> (length s < n)%nat ->
+     nl_ms_match s m anchor pos = if slen s <? pos then None else nl_search n m anchor (slen s) pos) /\
+  (forall src last n, 0 <= src -> (length s < n)%nat ->
+     lua_gmatch_next (Z.to_nat (slen s - src)) m (slen s) src last = lua_gmatch_next n m (slen s) src last) /\
+  (forall pos lastend n, 0 <= pos -> (length s < n)%nat ->
+     nl_gmatch_next (S (length s)) m s pos lastend = nl_gmatch_next n m s pos lastend).
+Proof. exact search_bounds_adequate. Qed.
+Print Assumptions C13_search_bounds_adequate.
+
+Theorem C13_format_bounds_adequate : forall cfloat,
+  (forall fmt args n, (length fmt < n)%nat -> nl_format cfloat fmt args = nl_format_loop cfloat n fmt args) /\
+  (forall fmt args n, (length fmt < n)%nat -> lua_format cfloat fmt args = lua_format_loop cfloat 21 true n fmt args) /\
+  (forall base upper v n, 2 <= base -> 0 <= v < two64 -> (64 <= n)%nat ->
+     digits base upper v = digits_fuel n base upper v []).
+Proof. exact format_bounds_adequate. Qed.
+Print Assumptions C13_format_bounds_adequate.
+
+Theorem C13_packsize_bound_adequate : forall fmt n, (length fmt < n)%nat ->
+  nl_packsize_loop (S (length fmt)) fmt 1 0 = nl_packsize_loop n fmt 1 0.
+Proof. exact packsize_bound_adequate. Qed.
+Print Assumptions C13_packsize_bound_adequate.
+
+(* ---- "never reads outside its arguments", per byte ----
+   [G.do_match] (ModelPatG.v, generated from ModelPat.v) is the matcher with its two memory reads - pattern.data[i] and
+   source.data[i] - as parameters.  For ANY two memories that agree on the pattern indices 0..#pattern (the terminator
+   included) and on the subject indices 0..#subject-1, and whatever they hold elsewhere, it returns the same result -
+   which is the result of the matcher itself - from every state the matcher can be in (C13_match_positions_in_range).
+   Every byte before or beyond the arguments is irrelevant to what every read site of match(), class_end, the bracket
+   classes, %b, %f, single_match and the expansion loops computes.  (The memory.compare of a back reference reads
+   [ci, ci+cl) and [s, s+cl): kept inside the subject by the capture invariant and the guard cl <= #subject - s.) *)
+Theorem C13_match_reads_only_its_arguments : forall cfg src pat (rdP rdS rdP' rdS' : Z -> Z),
+  (forall i, 0 <= i <= slen pat -> rdP i = rdP' i) -> (forall i, 0 <= i < slen src -> rdS i = rdS' i) ->
+  (forall i, 0 <= i <= slen pat -> rdP i = P pat i) -> (forall i, 0 <= i < slen src -> rdS i = S_ src i) ->
+  forall fuel d caps s p, inv_b src pat caps s p = true ->
+  G.do_match cfg src pat rdP rdS fuel d caps s p = G.do_match cfg src pat rdP' rdS' fuel d caps s p /\
+  G.do_match cfg src pat rdP rdS fuel d caps s p = do_match cfg src pat fuel d caps s p.
+Proof. exact matcher_reads_only_its_arguments. Qed.
+Print Assumptions C13_match_reads_only_its_arguments.
+
+(* ... and with the real memory the parametrised matcher is the matcher, definitionally *)
+Theorem C13_match_generic_instance : forall cfg src pat fuel d caps s p,
+  G.do_match cfg src pat (P pat) (S_ src) fuel d caps s p = do_match cfg src pat fuel d caps s p.
+Proof. exact inst_do_match. Qed.
+Print Assumptions C13_match_generic_instance.
